@@ -19,6 +19,7 @@ import Driver.EngineOps
 import Driver.GhgOps
 import Driver.NoxOps
 import Driver.IntegrateOps
+import Driver.HybridOps
 open Lean Driver
 
 def dispatch (op : String) (j : Json) : Except String Json :=
@@ -36,6 +37,7 @@ def dispatch (op : String) (j : Json) : Except String Json :=
   | "ghg" => ghgOp op j
   | "nox" => noxOp op j
   | "integrate" => integrateOp op j
+  | "hybrid" => hybridOp op j
   | _ => .error s!"unknown op family in '{op}'"
 
 def handle (line : String) : String :=
